@@ -72,6 +72,7 @@ def fastor_expr(e, T):
     if e[0] == 'const': return e[2] if len(e) > 2 else '(%s)(%d)' % (T, e[1])      # e[2]: a literal of another arithmetic type
     if e[0] == 'un':
         a = fastor_expr(e[2], T)
+        if isinstance(e[1], str): return '%s(%s)' % (e[1], a)          # elementwise math function
         return {0: '(-%s)', 1: 'abs(%s)', 2: '(!%s)', 4: 'sqrt(%s)', 5: 'floor(%s)', 6: 'ceil(%s)', 7: 'round(%s)', 8: 'trunc(%s)'}[e[1]] % a
     a, b = fastor_expr(e[2], T), fastor_expr(e[3], T)
     if e[1] in (4, 5): return '%s(%s,%s)' % ('min' if e[1] == 4 else 'max', a, b)
@@ -84,6 +85,7 @@ def scalar_expr(e, ty):
     if e[0] == 'const': return '((%s)(%s))' % (T, e[2]) if len(e) > 2 else '(%s)(%d)' % (T, e[1])   # the library converts the number to the element type first
     if e[0] == 'un':
         a = scalar_expr(e[2], ty)
+        if isinstance(e[1], str): return '((%s)std::%s(%s))' % (T, e[1], a)
         if e[1] == 0: return '(-%s)' % a if isf else 'wneg<%s>(%s)' % (T, a)
         if e[1] == 1: return 'std::abs(%s)' % a if isf else 'wabs<%s>(%s)' % (T, a)
         if e[1] == 2: return '(!%s)' % a
@@ -147,6 +149,18 @@ def gen_cases(sd, tr):
                 k = ('const', cv, txt)
                 cases.append({'id': len(cases), 'ty': ty, 'n': g.choice([35, 37, 39]), 'kind': 'arith', 'stream': 'small', 'aop': g.choice([None, 0]),
                               'tree': ('bin', op, ('leaf', 1), k) if form == 'TN' else ('bin', op, k, ('leaf', 2)), 'seed': g.next() % 100000})
+        if isf:
+            # every elementwise math function of the library against the same std:: function applied per element (bit for bit: the
+            # library applies the scalar function lane by lane), on arguments inside the function's domain
+            x = ('leaf', 1)
+            pos = ('bin', 0, ('un', 1, x), ('const', 1, '0.5')); big = ('bin', 0, ('un', 1, x), ('const', 2, '1.5'))
+            unit = ('bin', 3, x, ('bin', 0, ('un', 1, x), ('const', 2)))
+            small = ('bin', 3, x, ('const', 1024))
+            for fn, arg in [('sqrt', pos), ('cbrt', x), ('exp', small), ('exp2', small), ('expm1', small), ('log', pos), ('log10', pos), ('log2', pos), ('log1p', pos),
+                            ('sin', x), ('cos', x), ('tan', unit), ('asin', unit), ('acos', unit), ('atan', x), ('sinh', small), ('cosh', small), ('tanh', x),
+                            ('asinh', x), ('acosh', big), ('atanh', unit), ('erf', small), ('tgamma', pos), ('lgamma', pos)]:
+                cases.append({'id': len(cases), 'ty': ty, 'n': g.choice([35, 37, 39]), 'kind': 'arith', 'stream': 'frac', 'aop': g.choice([None, None, 0]),
+                              'tree': ('un', fn, arg), 'seed': g.next() % 100000})
         for uop in ([0, 1] if not isf else [0, 1, 4, 5, 6, 7, 8]):
             for stream in (['small'] if not isf else ['frac', 'special']):
                 tree = ('un', uop, ('leaf', 1)) if uop != 4 else ('un', 4, ('un', 1, ('leaf', 1)))
@@ -256,6 +270,7 @@ def modelled(c):
     """cases the Z-valued Coq model can decide exactly"""
     if c['kind'] == 'divnum' or c['stream'] in ('special', 'frac'): return False
     ops = ops_of(c['tree'])
+    if any(isinstance(o[1], str) for o in ops): return False      # math functions: compared with the scalar C++ function only
     if ('un', 4) in ops: return False          # sqrt is not part of the Z model
     if TY[c['ty']][2] and has_mixed_literal(c['tree']): return False      # the converted literal is not an integer
     if TY[c['ty']][2]:
